@@ -134,8 +134,8 @@ def c10(tier):
     cases = usable
     if tier == "quick":
         rnd = random.Random(common.seed())
-        ini = [c for c in cases if c["pos"] == "init"]
-        oth = [c for c in cases if c["pos"] != "init"]
+        ini = [c for c in cases if c["pos"] in ("init", "stmt16")]
+        oth = [c for c in cases if c["pos"] not in ("init", "stmt16")]
         cases = ini + rnd.sample(oth, min(len(oth), 3000))
     hc = []
     for i, c in enumerate(cases):
@@ -202,6 +202,8 @@ def c10(tier):
             e = "sizeof(%s)" % z["what"]
             src = SZ_DECL + (tmpl % e) + "\nvoid main() { }\n"
             hz.append((z, pos, src))
+        # the twin implementation used inside statements (generate_sizeof)
+        hz.append((z, "stmt8", SZ_DECL + "unsigned char r0;\nvoid main() { r0 = sizeof(%s); }\n" % z["what"]))
     zobs = common.run_harness("compile", [dict(id=i, src=h[2], variants=[dict(name="O1", args=["-O1"])]) for i, h in enumerate(hz)], "c10z")
     sz_ok = 0
     for (z, pos, src), ob in zip(hz, zobs):
@@ -215,6 +217,8 @@ def c10(tier):
             problem = "compiler %s: %s" % (o.get("status"), json.dumps(o.get("err", o.get("panic", "")))[:100])
         else:
             got = observe_calc("init" if pos == "expr" else pos, o)
+            if pos == "stmt8" and got is None:
+                continue            # not folded to an immediate (a type name is not accepted in a statement, ...)
             if got != want:
                 problem = "sizeof(%s) evaluates to %s, C assigns %d" % (z["what"], got, want)
             else:
@@ -436,6 +440,13 @@ OWN_SEEDS = [
     "unsigned char a, b; void main() { switch (a) { case 1: continue; default: b = 1; } }",
     "unsigned char a, b; void f() { switch (a) { case 1: b++; break; case 2: if (b) continue; } }\nvoid main() { f(); do { switch (b) { case 0: continue; } a++; } while (a); }",
     "unsigned char a; void main() { { continue; } while (a) { a--; } break; }",
+    "unsigned char a; void main() { csleep(2); csleep(3); csleep(5); a = 1; csleep(9); csleep(10); csleep(7); }",
+    "short a[-1]; char b[0]; bank3 char c; aligned(256) char d[4]; void main() { b[0] = a[1]; }",
+    "unsigned char a; void main() { switch (a) { } switch (a) {\n#ifdef NOPE\ncase 1: a = 2;\n#endif\n} while (a) { } for (;;) { break; } do { } while (0); }",
+    "unsigned char a; void main() { csleep(0); a = 1; }",
+    "unsigned char a; void main() { csleep(1); a = 1; }",
+    "unsigned char a; void main() { csleep(-2); csleep(11); csleep(100); csleep(65536); a = 1; }",
+    "unsigned char a; void main() { if (a) { } else { } { } ; ; }",
 ]
 
 
@@ -513,14 +524,21 @@ def c16(tier):
         for s in (seeds[0], seeds[(7 * k + 3) % len(seeds)], "#define Q 1\nunsigned char A, B; void main() { A = B + Q; }\n"):
             cases.append((s, "odd-options"))
             hc.append(dict(id=len(hc), src=s, variants=[dict(name="v", args=o)]))
+    for (src, files) in (('#include "self.h"\nvoid main() { }\n', {"self.h": '#include "self.h"\nchar sx;\n'}),
+                         ('#include "pa.h"\nvoid main() { }\n', {"pa.h": '#include "pb.h"\n', "pb.h": '#include "pa.h"\n'})):
+        cases.append((src, "include-cycle"))
+        hc.append(dict(id=len(hc), src=src, files=files, variants=[dict(name="v", args=["-O1"])]))
     obs = common.run_harness("compile", hc, "c16", deadline_ms=2500)
     recs = []
     for i, ((src, kind), ob) in enumerate(zip(cases, obs)):
         o = ob[0] if ob else {"status": "abort"}
         nlines = src.count("\n") + 1
         e = o.get("err", {}) if o.get("status") == "err" else {}
+        files = hc[i].get("files") or {}
+        if e.get("file") in files:
+            nlines = files[e["file"]].count("\n") + 1
         recs.append(dict(n=i, status=o.get("status", "abort"), kind=e.get("kind", ""), line=e.get("line") or 0, nlines=nlines,
-                         fileknown=e.get("file") in ("stdin",) if e else False))
+                         fileknown=(e.get("file") == "stdin" or e.get("file") in files) if e else False))
     d = common.workdir("out_c16")
     p = os.path.join(d, "obs.ndjson")
     with open(p, "w") as f:
